@@ -43,6 +43,52 @@ def lexer_aggregates(fn):
 # writer sets
 # --------------------------------------------------------------------------------------------
 
+def helper_callee(crate, fn):
+    """the crate-local, non-public function whose result `fn` returns unchanged (a private construction helper), if any"""
+    r = ret_root(fn)
+    if r and r[0] == 'call':
+        g = crate.fns.get(fn.callee_name(r[2]))
+        if g is not None and g.vis != 'Public' and g.kind != 'Closure':
+            return g, r[2]
+    return None, None
+
+
+def constructs_lexer(crate, fn, depth=0):
+    if lexer_aggregates(fn):
+        return True
+    if depth > 4:
+        return False
+    g, _t = helper_callee(crate, fn)
+    return g is not None and constructs_lexer(crate, g, depth + 1)
+
+
+def callers_of(crate, target):
+    out = []
+    for f in crate.fns.values():
+        if f.name != target.name and target.name in crate.callees(f):
+            out.append(f)
+    return out
+
+
+def is_private_helper_of(crate, fn, allowed):
+    """fn is a non-public function that is only called by audited writers (or by other such helpers)"""
+    if fn.vis == 'Public' or fn.kind == 'Closure':
+        return False
+    cs = callers_of(crate, fn)
+    if not cs:
+        return False
+    for c in cs:
+        root = crate.fns.get(c.parent) if c.kind == 'Closure' else c
+        if root is None:
+            return False
+        if any(re.search(p, root.name) for p in allowed):
+            continue
+        if root.name != fn.name and is_private_helper_of(crate, root, allowed):
+            continue
+        return False
+    return True
+
+
 def writers_of(crate, field):
     """Functions of the crate that can change Lexer.<field>: direct stores through a place ending in
     the field, &mut borrows of it, and constructions of a Lexer aggregate."""
@@ -57,7 +103,7 @@ def writers_of(crate, field):
             base_ty = fn.locals[st['rhs']['place']['local']]
             if 'Lexer' in base_ty:
                 kinds.add('mut-borrow')
-        if lexer_aggregates(fn):
+        if constructs_lexer(crate, fn):
             kinds.add('construct')
         if kinds:
             out[fn.name] = kinds
@@ -70,6 +116,8 @@ def check_writer_set(rep, rid, crate, field, allowed, cfg):
     for name, kinds in sorted(ws.items()):
         ok = [pat for pat in allowed if re.search(pat, name)]
         rep.inst(rid, '%s:%s:%s' % (cfg, field, short(name)), detail=dict(writer=name, kinds=sorted(kinds)))
+        if not ok and kinds == {'construct'} and is_private_helper_of(crate, crate.fns[name], allowed):
+            continue       # a private construction helper of audited constructors: its field values are checked through its callers (M-C14c)
         if not ok:
             fn = crate.fns[name]
             rep.viol(rid, '%s:writer:%s' % (field, short(name)),
@@ -484,6 +532,25 @@ def lexer_agg_desc(fn):
     return {n: desc(fn, o) for n, o in zip(rhs['fields'], rhs['ops'])}
 
 
+def lexer_summary(crate, fn, depth=0):
+    """field -> description of the value the returned Lexer gets, in terms of fn's own parameters; follows private
+    construction helpers (param substitution)"""
+    d = lexer_agg_desc(fn)
+    if d is not None or depth > 4:
+        return d
+    g, t = helper_callee(crate, fn)
+    if g is None:
+        return None
+    gs = lexer_summary(crate, g, depth + 1)
+    if gs is None:
+        return None
+    args = [desc(fn, a) for a in t['args']]
+
+    def sub(v):
+        return re.sub(r'\bparam(\d+)\b', lambda m: args[int(m.group(1)) - 1] if int(m.group(1)) - 1 < len(args) else m.group(0), v)
+    return {k: sub(v) for k, v in gs.items()}
+
+
 CONSTRUCT = {
     'with_extras': dict(source='param1', is_prefix='const:0', token_start='const:0', token_end='const:0', extras='param2'),
     'partial_with_extras': dict(source='param1', is_prefix='const:1', token_start='const:0', token_end='const:0', extras='param2'),
@@ -501,15 +568,15 @@ def rule_field_correspondence(rep, crate, cfg):
     for fn, m, w in items:
         if not rep.anchor(rid, 'fn Lexer::%s [%s]' % (m, cfg), fn is not None):
             continue
-        d = lexer_agg_desc(fn)
+        d = lexer_summary(crate, fn)
         rep.inst(rid, '%s:%s' % (cfg, m), detail=d)
         if d is None:
-            rep.viol(rid, '%s:shape' % m, 'Lexer::%s does not build exactly one Lexer aggregate' % m, loc(fn))
+            rep.viol(rid, '%s:shape' % m, 'Lexer::%s does not build exactly one Lexer aggregate (directly or through a private helper)' % m, loc(fn))
             continue
         for f, v in w.items():
             if d.get(f) != v:
                 rep.viol(rid, '%s:field:%s' % (m, f), 'Lexer::%s builds %s from %s, expected %s' % (m, f, d.get(f), v), loc(fn))
-        if ret_desc(fn).split('{')[0] != 'agg:lexer::Lexer':
+        if ret_desc(fn).split('{')[0] != 'agg:lexer::Lexer' and helper_callee(crate, fn)[0] is None:
             rep.viol(rid, '%s:return' % m, 'Lexer::%s does not return the aggregate it builds' % m, loc(fn))
     for m, tgt in (('new', 'with_extras'), ('new_partial', 'partial_with_extras')):
         fn = lexer_fn(crate, m)
@@ -520,7 +587,8 @@ def rule_field_correspondence(rep, crate, cfg):
                 rep.viol(rid, '%s:forward' % m, 'Lexer::%s returns %s, expected a call of %s(source, Default::default())' % (m, d, tgt), loc(fn))
     # only the audited functions may construct a Lexer
     for fn in crate.fns.values():
-        if lexer_aggregates(fn) and not re.search(r'::(with_extras|partial_with_extras|morph)$|Clone>::clone$', fn.name):
+        audited = [r'::(with_extras|partial_with_extras|morph)$', r'Clone>::clone$']
+        if lexer_aggregates(fn) and not any(re.search(p_, fn.name) for p_ in audited) and not is_private_helper_of(crate, fn, audited):
             rep.viol(rid, 'constructs:%s' % short(fn.name), '%s constructs a Lexer but is not an audited constructor' % fn.name, loc(fn))
     # Logos::lexer / lexer_with_extras
     for m, tgt, args in (('lexer', 'new', 'param1'), ('lexer_with_extras', 'with_extras', 'param1,param2')):
@@ -735,6 +803,27 @@ def rule_read_bounds(rep, crate, cfg):
             if okc:
                 guards.append(c)
         if not guards:
+            # idiom 2: `match offset.checked_add(SIZE) { Some(end) if end <= self.len() => .., _ => None }`
+            adds_ = [(b, t) for b, t in find_calls(fn, r'::checked_add$') if desc(fn, t['args'][0]) == 'param2' and is_size_const(t['args'][1])]
+            for ab, at in adds_:
+                from mirlib import variant_edges
+                some_edges = variant_edges(fn, at['dest']['local'], 1)
+                for sb in switches(fn):
+                    c = cond_of_switch(fn, sb)
+                    if not c or c['root'][0] != 'bin':
+                        continue
+                    rhs = c['root'][2]['rhs']
+                    pa, pb = trace(fn, rhs['a']), trace(fn, rhs['b'])
+
+                    def is_payload(x):
+                        return x[0] == 'place' and x[1]['local'] == at['dest']['local'] and any(p_['k'] == 'downcast' and p_.get('variant') == 'Some' for p_ in x[1]['proj'])
+
+                    def is_len(x):
+                        return x[0] == 'call' and re.search(r'(str::<impl str>::len|slice::<impl \[T\]>::len|source::Source::len)$', fn.callee_name(x[2])) and desc(fn, x[2]['args'][0]) in ('param1', 'self') or (x[0] == 'un' and x[2]['rhs'].get('uop') == 'PtrMetadata' and desc(fn, x[2]['rhs']['a']) in ('param1', 'self'))
+                    okc = (rhs['bop'] == 'Le' and is_payload(pa) and is_len(pb)) or (rhs['bop'] == 'Ge' and is_len(pa) and is_payload(pb))
+                    if okc and any(fn.edge_dominates(e, sb) for e in some_edges):
+                        guards.append(c)
+        if not guards:
             rep.viol(rid, '%s::read:no-guard' % tyn, '<%s as Source>::read has no `offset.checked_add(Chunk::SIZE).is_some_and(|end| end <= self.len())` guard' % tyn, where)
             continue
         adds = find_calls(fn, r'ptr::const_ptr::<impl \*const T>::add$')
@@ -764,7 +853,7 @@ def rule_read_bounds(rep, crate, cfg):
                     rep.viol(rid, '%s::read:some-unguarded' % tyn, 'Some(..) is returned outside the bounds-check edge', loc(fn, x['line']))
                 if var == 'Some' and not desc(fn, x['rhs']['ops'][0]).startswith('call:source::Chunk::from_ptr('):
                     rep.viol(rid, '%s::read:some-payload' % tyn, 'Some payload is not the chunk read', loc(fn, x['line']))
-                if var == 'None' and not dom_f:
+                if var == 'None' and not dom_f and any(fn.edge_dominates((g['bb'], g['t']), bi) for g in guards):
                     rep.viol(rid, '%s::read:none-on-success' % tyn, 'None is returned although the bounds check succeeded', loc(fn, x['line']))
             else:
                 rep.viol(rid, '%s::read:return-shape' % tyn, 'unexpected definition of the return value', where)
